@@ -28,6 +28,10 @@ ASSUMPTIONS = [
     "assembly algorithm: modelled (FalconModel/Assemble.lean on top of the C15 CfgEdit model) and proved well formed / entry / "
     "each-address-once / merge-language-preserving for all inputs (Props/C06Asm.lean); tied to the code by exact equality of "
     "`assemble . discover` with falcon's recovered function on every generated program (verdict asm-mismatch = broken)",
+    "semantic clause for ALL states and run lengths: asm_refines (Props/C06Asm.lean) — under Assemble.Coherent (decidable; the driver "
+    "evaluates it, and successor determinism against the single-instruction oracle, on every generated case: verdict `incoherent`) "
+    "the recovered function and the reference machine 'one lifted instruction at a time' have the same runs in the IL operational "
+    "semantics FStep/FRun (the semantics C07 ties to falcon's executor), through the final merge",
     "runs are compared on address trace and, when both terminate within the bound, on the final registers, memory window and next pc",
 ]
 
@@ -37,6 +41,11 @@ def classify(c):
     if v.startswith("ok") or v.startswith("rejected"):
         return "ok"
     if v.startswith("structure") or v.startswith("diverge") or v.startswith("post-differs") or v.startswith("panic"):
+        return "violation"
+    # the hypothesis of `asm_refines` fails on the dumped translation results.  Two clauses describe the recovered
+    # CFG itself (a concrete program whose CFG, read in the IL operational semantics, does not have the machine's
+    # executions) and are reported as violations; the remaining clauses would mean the lifter/model tie is broken.
+    if v.startswith("incoherent reqFun") or v.startswith("incoherent continuation"):
         return "violation"
     return "broken"      # model-mismatch / oracle-miss / unparsable: the correspondence, not the property
 
@@ -51,6 +60,10 @@ def signature(c):
         head = "addr" if head.startswith("0x") else head
         ds = "target-in-delay-slot" if "target-in-delay-slot" in c.cls else "plain"
         return f"C06/{arch}/diverge/fn-ends-with-{head}/{ds}"
+    if kind == "incoherent":
+        sub = v.split(" ")[1].split("@")[0].split("\t")[0] if " " in v else "unknown"
+        ds = "target-in-delay-slot" if "target-in-delay-slot" in c.cls else "plain"
+        return f"C06/{arch}/incoherent/{sub}/{ds}"
     if kind == "structure":
         return f"C06/{arch}/structure/{v.split(' ')[1]}"
     if kind == "panic":
